@@ -1212,6 +1212,10 @@ enum Policy {
     Uniform(Rng),
     /// PCT-style: random priorities, lowered at d random steps
     Pct(Rng, Vec<u32>, Vec<u64>),
+    /// one thread (the victim) runs up to its k-th yield point and is then left parked there
+    /// until some other thread has completed a whole operation (or nobody else can run); random
+    /// afterwards. (rng, victim, k, yields of the victim so far, phase, records when parked)
+    ParkAcross(Rng, usize, u64, u64, u8, usize),
 }
 
 pub struct ConcResult {
@@ -1350,8 +1354,15 @@ pub fn run_conc_full(trace: &Trace, scratch: PathBuf, verbose: bool, known_open:
         Policy::Replay(trace.schedule.clone(), 0)
     } else {
         let mut r = Rng::new(trace.cfg.seed);
-        if r.chance(1, 2) {
+        let which = r.below(3);
+        if which == 0 {
             Policy::Uniform(r)
+        } else if which == 2 {
+            let victim = r.usize(n);
+            // (the first yield is `op_start`; in fine-grained runs the interesting points of a
+            // reader lie within its first dozen yields, those of a writer within its first thirty)
+            let k = 1 + if trace.cfg.obs_level == 1 { r.below(24) } else { r.below(10) };
+            Policy::ParkAcross(r, victim, k, 0, 0, 0)
         } else {
             let mut prio: Vec<u32> = (0..n as u32).map(|i| 100 + i).collect();
             r.shuffle(&mut prio);
@@ -1548,6 +1559,34 @@ pub fn run_conc_full(trace: &Trace, scratch: PathBuf, verbose: bool, known_open:
                         prio[best] = r.below(50) as u32;
                     }
                     *runnable.iter().max_by_key(|t| prio[**t]).unwrap()
+                }
+                Policy::ParkAcross(r, victim, k, yields, phase, recs_at_park) => {
+                    let done_now = records.lock().unwrap().iter().filter(|x| x.thread != *victim).count();
+                    if *phase == 0 {
+                        if runnable.contains(victim) && *yields < *k {
+                            *yields += 1;
+                            *victim
+                        } else if *yields >= *k {
+                            *phase = 1;
+                            *recs_at_park = done_now;
+                            let others: Vec<usize> = runnable.iter().copied().filter(|t| t != victim).collect();
+                            if others.is_empty() { *phase = 2; *r.pick(&runnable) } else { *r.pick(&others) }
+                        } else {
+                            // the victim cannot run yet (it waits for a lock): somebody else
+                            *r.pick(&runnable)
+                        }
+                    } else if *phase == 1 {
+                        let others: Vec<usize> = runnable.iter().copied().filter(|t| t != victim).collect();
+                        if done_now > *recs_at_park || others.is_empty() {
+                            *phase = 2;
+                            if runnable.contains(victim) { *victim } else { *r.pick(&runnable) }
+                        } else {
+                            // stay with one of the others until it has finished its operation
+                            others[0]
+                        }
+                    } else {
+                        *r.pick(&runnable)
+                    }
                 }
             };
             g.step += 1;
